@@ -110,6 +110,39 @@ Section AssocPerm.
   Qed.
 End AssocPerm.
 
+(* ----- the regenerated tables say what this development assumes about the code ----- *)
+Lemma put_guards_order :
+  fileStorePut_guards = [b "DisablePut"; b "call:validateCredentialFormat"; b "utf8:serverAddress"].
+Proof. reflexivity. Qed.
+
+Lemma put_accepts_spec a c :
+  put_accepts a c =
+  negb (contains colon (c_user c)) && valid_utf8 a && valid_utf8 (c_refresh c) && valid_utf8 (c_access c).
+Proof.
+  destruct c as [u p r t].
+  cbv - [contains valid_utf8].
+  destruct (contains 58 u), (valid_utf8 a), (valid_utf8 r), (valid_utf8 t); reflexivity.
+Qed.
+
+(* the order of the effects the models assume, as it stands in the source (kind callseq):
+   saveFile = MkdirAll, Ingest, [deferred Remove], Rename; Ingest = CreateTemp, [deferred
+   Close, Remove], Chmod, Copy; every operation takes its lock first, releases it by a
+   deferred call, and a writer saves inside it *)
+Lemma call_orders :
+  calls_saveFile = [b "os.MkdirAll"; b "ioutil.Ingest"; b "os.Remove"; b "os.Rename"] /\
+  calls_Ingest = [b "os.CreateTemp"; b "tempFile.Close"; b "os.Remove"; b "tempFile.Chmod"; b "io.Copy"] /\
+  calls_PutCredential = [b "cfg.rwLock.Lock"; b "cfg.rwLock.Unlock"; b "json.Marshal"; b "cfg.saveFile"] /\
+  calls_DeleteCredential = [b "cfg.rwLock.Lock"; b "cfg.rwLock.Unlock"; b "cfg.saveFile"] /\
+  calls_SetCredentialsStore = [b "cfg.rwLock.Lock"; b "cfg.rwLock.Unlock"; b "cfg.saveFile"] /\
+  calls_GetCredential = [b "cfg.rwLock.RLock"; b "cfg.rwLock.RUnlock"; b "json.Unmarshal"] /\
+  calls_IsAuthConfigured = [b "cfg.rwLock.RLock"; b "cfg.rwLock.RUnlock"] /\
+  calls_getHelperSuffix = [b "ds.config.GetCredentialHelper"; b "ds.config.CredentialsStore"].
+Proof. repeat split; reflexivity. Qed.
+
+Lemma to_hostname_spec addr :
+  to_hostname addr = cut_before slash (trim_prefix (b "https://") (trim_prefix (b "http://") addr)).
+Proof. reflexivity. Qed.
+
 Lemma auths_neq_cs : configFieldAuths <> configFieldCredentialsStore.
 Proof. intro H. apply str_eqb_spec in H. vm_compute in H. discriminate. Qed.
 Lemma auths_neq_helpers : configFieldAuths <> configFieldCredentialHelpers.
@@ -260,12 +293,12 @@ Section Proofs.
 
   Lemma put_accepts_colon a c : put_accepts a c = true -> contains colon (c_user c) = false.
   Proof.
-    unfold put_accepts. intro H. apply andb_true_iff in H as [H _]. apply andb_true_iff in H as [H _].
+    rewrite put_accepts_spec. intro H. apply andb_true_iff in H as [H _]. apply andb_true_iff in H as [H _].
     apply andb_true_iff in H as [H _]. now apply negb_true_iff in H.
   Qed.
 
   Lemma colon_not_accepted a c : contains colon (c_user c) = true -> put_accepts a c = false.
-  Proof. intro H. unfold put_accepts. now rewrite H. Qed.
+  Proof. intro H. rewrite put_accepts_spec. now rewrite H. Qed.
 
   Lemma put_refused st a c :
     put_accepts a c = false -> step st (Put a c) = (st, RErrBadCred).
@@ -502,6 +535,28 @@ Section Proofs.
         unfold stf. rewrite run_cache_untouched by exact NW. apply E0.
   Qed.
 
+  (* ----- an operation whose save fails (I/O error) ----- *)
+  Lemma step_io_failed st o :
+    saves st o = true -> step_io b64enc b64dec true st o = (st, RErrIO).
+  Proof. intro S. unfold step_io. now rewrite S. Qed.
+
+  Lemma step_io_unaffected io st o :
+    io = false \/ saves st o = false -> step_io b64enc b64dec io st o = step st o.
+  Proof. intros [->|S]; unfold step_io; [reflexivity|]. rewrite S. now rewrite andb_false_r. Qed.
+
+  (* before the fix the failed Put stayed visible: Get answers the credential whose
+     Put reported an error (and the next successful save writes it) *)
+  Lemma step_io_prefix_visible :
+    exists st o a,
+      snd (step_io_prefix b64enc b64dec true st o) = RErrIO /\
+      get_candidates (cache_of (fst (step_io_prefix b64enc b64dec true st o))) a <>
+      get_candidates (cache_of st) a.
+  Proof.
+    exists {| st_mem := empty_mem; st_file := None |},
+           (Put [97] {| c_user := []; c_pass := []; c_refresh := [116]; c_access := [] |}), [97].
+    split; [reflexivity|]. vm_compute. discriminate.
+  Qed.
+
   (* ----- DisablePut: no secret is ever written ----- *)
   Notation fs_step := (fs_step b64enc b64dec).
   Notation fs_run := (fs_run b64enc b64dec).
@@ -649,6 +704,48 @@ Section Proofs.
 
   Lemma sim_empty f : sim {| st_mem := empty_mem; st_file := f |} [].
   Proof. split; [intros k e []|]. split; [reflexivity|discriminate]. Qed.
+
+  (* ----- DynamicStore ----- *)
+  Notation ds_step := (ds_step b64enc b64dec).
+  Notation ds_run := (ds_run b64enc b64dec).
+
+  (* an address that is routed to a native helper never touches the store or the file *)
+  Lemma ds_native_untouched allow helpers st o h :
+    ds_route helpers st (op_addr o) = Some h -> (forall s, o <> SetCs s) ->
+    ds_step allow helpers st o = (st, RNative).
+  Proof. intros R NS. destruct o as [a|a c|a|s]; cbn [CredFile.ds_step op_addr] in *; try now rewrite R. now elim (NS s). Qed.
+
+  (* with no credential helper and no credsStore configured, the DynamicStore IS the file
+     store with DisablePut = not AllowPlaintextPut, over every history of Get/Put/Delete *)
+  Definition dyn_op (o : op) : Prop := match o with SetCs _ => False | _ => True end.
+
+  Lemma ds_step_file allow helpers st o :
+    (forall a, helper_of helpers a = []) ->
+    m_cs (st_mem st) = [] -> dyn_op o ->
+    ds_step allow helpers st o = fs_step (negb allow) st o.
+  Proof.
+    intros NH CS D. destruct o as [a|a c|a|s]; cbn [CredFile.ds_step]; try contradiction;
+      unfold ds_route; rewrite (NH a), CS; reflexivity.
+  Qed.
+
+  Lemma fs_step_cs dp st o : dyn_op o -> m_cs (st_mem (fst (fs_step dp st o))) = m_cs (st_mem st).
+  Proof.
+    destruct o as [a|a c|a|s]; cbn [dyn_op]; try contradiction; intros _; cbn [CredFile.fs_step].
+    - reflexivity.
+    - destruct dp; [reflexivity|]. cbn [CredFile.step]. destruct (negb (put_accepts a c)); reflexivity.
+    - cbn [CredFile.step]. destruct (lookup a (m_cache (st_mem st))); reflexivity.
+  Qed.
+
+  Lemma ds_run_file allow helpers h : forall st,
+    (forall a, helper_of helpers a = []) ->
+    m_cs (st_mem st) = [] -> Forall dyn_op h ->
+    ds_run allow helpers st h = fs_run (negb allow) st h.
+  Proof.
+    induction h as [|o h IH]; intros st NH CS F; [reflexivity|].
+    inversion F as [|? ? D F']; subst. cbn [CredFile.ds_run CredFile.fs_run].
+    rewrite (ds_step_file allow helpers st o NH CS D).
+    apply IH; [exact NH| |exact F']. rewrite fs_step_cs by exact D. exact CS.
+  Qed.
 
   (* ----- reopening the saved file gives a store with the same secrets ----- *)
   Lemma reopen f st0 h :
